@@ -95,6 +95,8 @@ def drive(rep, kinds, hists, seed, tag, per_kind):
             counts[f] = counts.get(f, 0) + 1
             if f in FLAGS:
                 sig = {"check": "trace", "flag": f, "scheduler": meta[k]["kind"]}
+                if f in ("none_premature", "suggest_after_nothing_left"):
+                    sig["space"] = meta[k]["space"]
                 crash = next((e for e in tr["ev"] if e["a"] == "Crash"), None)
                 if crash is not None and f == "scheduler_raised":
                     sig["where"], sig["exc"] = crash["where"], crash["exc"].split("(")[0]
